@@ -23,7 +23,8 @@ theorem processPayload_in_order (t : Tracker) (d : Bytes) (hb : t.buf = []) (hc 
   have h1 := seqCompare_ahead t.seq d.length hc h0 hn
   simp only [h1, seqCompare_self]
   simp only [storePayload, hb, lookup, put, erase, List.filter_nil]
-  simp [drain, lookup, seqCompare_self, eraseIterator, erase, cyclicSucc, minKey?]
+  have hne : d ≠ [] := by intro h; simp [h] at h0
+  simp [drain, lookup, seqCompare_self, eraseIterator, erase, cyclicSucc, minKey?, hne]
 
 
 /-- KF-C07-3 (fixed): the payload of an initial SYN segment (TCP Fast Open) is delivered whole by the stream the SYN creates,
